@@ -314,7 +314,9 @@ impl<'a, 'b> SGen<'a, 'b> {
             }
         }
         if self.fault() && !self.p.usage {
-            return Operand::Id(self.undeclared());
+            // an undeclared operand, plain or indexed (the same few names and indices recur)
+            let n = self.undeclared();
+            return if self.src.chance(1, 3) { Operand::Indexed(n, vec![Index::List(vec![IndexItem::Expr(lit_int(self.src.below(2) as u32))])]) } else { Operand::Id(n) };
         }
         let qs = self.visible(|k| matches!(k, EKind::Qubit | EKind::QReg(_)));
         if qs.is_empty() || self.src.chance(1, 10) {
@@ -687,9 +689,21 @@ impl<'a, 'b> SGen<'a, 'b> {
             let n = self.src.below(4);
             Body::Block((0..n).map(|_| self.stmt(depth + 1)).collect())
         } else {
-            // a single statement: never a declaration; never something starting with an identifier
-            // after an expression iterable (handled by the caller)
-            Body::Single(Box::new(self.simple()))
+            // a single statement without braces: mostly a simple statement (never something
+            // starting with an identifier after an expression iterable: handled by the caller);
+            // sometimes a declaration, which is local to the body's own scope; with the usage
+            // profile sometimes a declaration that belongs at global scope, or a `return`
+            let s = match self.src.below(8) {
+                0 => self.classical_decl(),
+                1 if self.p.usage && self.fault() => match self.src.below(4) {
+                    0 => self.qubit_decl(),
+                    1 => self.gate_def(),
+                    2 => self.def_def(depth + 1),
+                    _ => Stmt::Return(None),
+                },
+                _ => self.simple(),
+            };
+            Body::Single(Box::new(s))
         }
     }
 
